@@ -23,6 +23,7 @@ def tracing(tr, stop_before_propagators=False):
         "gen": S._generate_propagator_matrix, "blocks": sos.get_block_diagonal_blocks,
         "sing": SingularityDetection.find_singularities, "from_shapes": S.from_shapes.__func__,
         "jac": S.get_jacobian_matrix,
+        "comp": getattr(sos, "get_connected_component_indices", None),
     }
 
     def from_shapes(cls, shapes, parameters=None):
@@ -55,8 +56,15 @@ def tracing(tr, stop_before_propagators=False):
                                                  "A": r.A_.copy(), "b": r.b_.copy(), "c": r.c_.copy()})
         return r
 
+    def comp(A):
+        r = saved["comp"](A)
+        tr["components_input_nz"] = [[bool(A[i, j] != 0) for j in range(A.shape[1])] for i in range(A.shape[0])]
+        tr["components"] = [[int(k) for k in idx] for idx in r]
+        return r
+
     def gen(self, A):
-        tr["propagator_input"] = {"x": [str(s) for s in self.x_], "A": A.copy(), "b": self.b_.copy(), "c": self.c_.copy()}
+        tr["propagator_input"] = {"x": [str(s) for s in self.x_], "A": A.copy(), "b": self.b_.copy(), "c": self.c_.copy(),
+                                  "order": [int(self.shape_order_from_system_matrix(i)) for i in range(len(self.x_))]}
         if stop_before_propagators:
             raise StopBeforePropagators()
         P = saved["gen"](self, A)
@@ -80,6 +88,8 @@ def tracing(tr, stop_before_propagators=False):
     S.get_sub_system = sub
     S._generate_propagator_matrix = gen
     sos.get_block_diagonal_blocks = blocks
+    if saved["comp"] is not None:
+        sos.get_connected_component_indices = comp
     SingularityDetection.find_singularities = staticmethod(sing)
     try:
         yield tr
@@ -90,6 +100,8 @@ def tracing(tr, stop_before_propagators=False):
         S.get_sub_system = saved["sub"]
         S._generate_propagator_matrix = saved["gen"]
         sos.get_block_diagonal_blocks = saved["blocks"]
+        if saved["comp"] is not None:
+            sos.get_connected_component_indices = saved["comp"]
         SingularityDetection.find_singularities = staticmethod(saved["sing"])
 
 
